@@ -167,6 +167,10 @@ type c06Case struct {
 	// client may be in the middle of writing a message).
 	TakeSet bool `json:"take_set,omitempty"`
 	Take    int  `json:"take,omitempty"`
+	// CLen: the peer announces this Content-Length (whatever the body's size);
+	// the client then runs without the harness's 64 KiB read limit (the bodies
+	// of these cases are small).
+	CLen string `json:"clen,omitempty"`
 }
 
 func (k c06Case) key() string {
@@ -180,6 +184,9 @@ func (k c06Case) key() string {
 	}
 	if k.TakeSet {
 		body += fmt.Sprintf("/take=%d", k.Take)
+	}
+	if k.CLen != "" {
+		body += "/content-length=" + k.CLen
 	}
 	return fmt.Sprintf("%s/%s/%s/st%d/ct=%s/enc=%s/hs=%s/ts=%s/msg=%q/det=%s/body=%s", k.Proto, k.Kind, codec, k.Status, k.CT, k.Enc, k.HStatus, k.TStatus, k.Msg, k.Details, body)
 }
@@ -267,6 +274,10 @@ func c06Check(c *ev.Collector, k c06Case) {
 		trailer.Set("Grpc-Status", "0")
 	}
 	header.Set("X-Mixed-case", "hv")
+	if k.CLen != "" {
+		header.Set("Content-Length", k.CLen)
+		tags = append(tags, "content-length="+k.CLen)
+	}
 	tr := &memhttp.Transport{Handler: refwire.Handler(k.Status, header, body, trailer), Proto: 2, SyncCloseReq: true}
 	if k.TakeSet {
 		tags = append(tags, fmt.Sprintf("take=%d", k.Take))
@@ -281,6 +292,9 @@ func c06Check(c *ev.Collector, k c06Case) {
 	}
 	cfg := Cfg{Proto: k.Proto, JSON: k.JSON, Comp: CompDefault, Kind: k.Kind, HTTP: 2}
 	cl := NewClient(tr, cfg, connect.WithReadMaxBytes(1<<16))
+	if k.CLen != "" {
+		cl = NewClient(tr, cfg)
+	}
 	var res CallResult
 	g := Guarded(func() { res = RunCall(context.Background(), cl, k.Kind, [][]byte{{1}}, nil) }, tr)
 	c.AddTransitions(3)
@@ -475,6 +489,24 @@ func TestC06(t *testing.T) {
 						} else {
 							k.TStatus = "3"
 						}
+						c.Case(k.key(), true)
+						Bubble(t, func() { c06Check(c, k) })
+					}
+				}
+			}
+		}
+	}
+	// the peer announces a Content-Length that has nothing to do with its body
+	for _, p := range AllProtos {
+		for _, kind := range []Kind{KUnary, KServer} {
+			for _, js := range []bool{false, true} {
+				for _, st := range []int{200, 503} {
+					for _, cl := range []string{"9223372036854775807", "72057594037927936", "4294967296", "0", "1"} {
+						idx++
+						if !ev.Mine(idx) {
+							continue
+						}
+						k := c06Case{Proto: p, Kind: kind, JSON: js, Status: st, CT: "echo", Enc: "-", HStatus: "-", TStatus: "-", Msg: "-", Details: "-", Body: "valid", Dev: 1, CLen: cl}
 						c.Case(k.key(), true)
 						Bubble(t, func() { c06Check(c, k) })
 					}
